@@ -31,6 +31,8 @@ pub enum Op {
     RotateTwice(u8),
     Len,
     IsEmpty,
+    /// the library's own reader of the current population's size (used by conditions and the logger)
+    SizeLens,
     CRotate(u8),
     CClear,
     CDuplicate,
@@ -185,6 +187,7 @@ impl Model {
                 }
             }
             Len => R::Num(h),
+            SizeLens => R::Num(self.s[0].len()),
             IsEmpty => R::Bool(h == 0),
             CClear => {
                 self.s[0].clear();
@@ -255,6 +258,10 @@ fn apply_impl(st: &mut State<'static, TagP>, op: &Op, next_tag: &mut u32) -> R {
             R::Unit
         }
         Len => R::Num(st.populations().len()),
+        SizeLens => match mahf::lens::Lens::get(&mahf::lens::common::PopulationSizeLens::<TagP>::new(), &problem, st) {
+            Ok(n) => R::Num(n as usize),
+            Err(_) => R::Err,
+        },
         IsEmpty => R::Bool(st.populations().is_empty()),
         CRotate(n) => comp(st, pu::RotatePopulations::new(n as usize)),
         CClear => comp(st, pu::ClearPopulation::new()),
@@ -548,6 +555,7 @@ impl System for Stack {
             }
         }
         if h > 0 {
+            v.push(SizeLens);
             v.push(CClear);
             if key[0].len() * 2 <= self.max_s {
                 v.push(CDuplicate);
@@ -867,6 +875,8 @@ fn parse_op(v: &Value) -> Result<Op, String> {
         "Rotate" => Rotate(a(0)),
         "RotateTwice" => RotateTwice(a(0)),
         "Len" => Len,
+        "SizeLens" => SizeLens,
+        "SizeLens" => SizeLens,
         "IsEmpty" => IsEmpty,
         "CRotate" => CRotate(a(0)),
         "CClear" => CClear,
